@@ -431,6 +431,8 @@ def oracle(case, obs):
     latch = False            # AutonomousStateMachine latch (lifecycle ops only)
     lifecycle = auto and case["hist"] and case["hist"][0][0] == "aenable"
     stopped_since = True     # stopped and not re-engaged
+    entered_last = None      # the state most recently entered by next_state() and not yet called
+    offc = False             # the history has left the usage contract K
     maxclk = -1
     nonneg_durs = all((v["dur"] or 0) >= 0 for v in st.values())
     for opi, (op, (evs, is_exec, cur)) in enumerate(zip(case["hist"], obs)):
@@ -455,7 +457,7 @@ def oracle(case, obs):
             if e[0] in ("enter", "done") and e[-1] > 0 and not e[-2]:
                 off = True       # in-state action while the machine is not executing
         if off:
-            break
+            offc = True      # from here on only the clauses that need no usage contract are judged
         is_iter = kind == "execute" or (kind == "aiter" and latch)
         if kind == "aenable":
             latch = True
@@ -475,27 +477,45 @@ def oracle(case, obs):
                 out.append(("C13", "op %d %r: is_executing is True after on_iteration with the latch off" % (opi, op)))
         # walk the events in order
         seen_done = False
+        ent0 = entered_last if is_iter else None
+        first_ev = True
         for e in evs:
+            if e[0] in ("enter", "call", "done"):
+                if (first_ev and e[0] == "enter" and e[3] == 0 and ent0 is not None and not offc
+                        and (requested or must(ent0))):
+                    out.append(("C02", "op %d %r: s%d had been entered and never ran, yet the iteration moved on to s%d "
+                                       "(a state that has just been entered is always run once before it can expire)" % (opi, op, ent0, e[1])))
+                first_ev = False
             if e[0] == "enter":
                 pending[e[1]] = True
                 last.pop(e[1], None)
                 has_state = True
+                entered_last = e[1]
             elif e[0] == "done":
                 has_state = False
                 seen_done = True
+                entered_last = None
             elif e[0] == "call":
                 s, tm, stm, init, eng = e[1], e[2], e[3], e[4], e[5]
-                if lifecycle and seen_done and s != default:
+                if (not offc and entered_last is not None and s != default and s != entered_last
+                        and (requested or must(entered_last)) and is_iter):
+                    out.append(("C02", "op %d %r: s%d was entered and never ran: s%d ran instead (a state that has just been "
+                                       "entered is always run once before it can expire)" % (opi, op, entered_last, s)))
+                if s != default:
+                    entered_last = None
+                if not offc and lifecycle and seen_done and s != default:
                     out.append(("C13", "op %d %r: s%d ran after done() in the same on_iteration (the machine cycled)" % (opi, op, s)))
                 if is_iter and not requested and regular(s):
                     out.append(("C01", "op %d %r: regular state s%d ran without engage() since the previous iteration" % (opi, op, s)))
-                if stopped_since and s != default:
+                    out.append(("C04", "op %d %r: engage() stopped being called outside a must_finish state, yet regular state s%d ran "
+                                       "instead of the machine stopping through done()" % (opi, op, s)))
+                if not offc and stopped_since and s != default:
                     out.append(("C04", "op %d %r: s%d ran although the machine was stopped and engage() was not called" % (opi, op, s)))
-                if stm is not None and not isinstance(stm, tuple) and stm < 0:
+                if not offc and stm is not None and not isinstance(stm, tuple) and stm < 0:
                     out.append(("C02", "op %d %r: state_tm of s%d is negative (%d ticks)" % (opi, op, s, stm)))
-                if tm is not None and not isinstance(tm, tuple) and tm < 0 and eng:
+                if not offc and tm is not None and not isinstance(tm, tuple) and tm < 0 and eng:
                     out.append(("C03", "op %d %r: tm of s%d is negative (%d ticks)" % (opi, op, s, tm)))
-                if nonneg_durs and eng and isinstance(tm, int) and isinstance(stm, int) and stm > tm:
+                if not offc and nonneg_durs and eng and isinstance(tm, int) and isinstance(stm, int) and stm > tm:
                     out.append(("C03", "op %d %r: s%d got state_tm (%d) > tm (%d): parameters mixed up" % (opi, op, s, stm, tm)))
                 if init is not None and not isinstance(init, bool):
                     out.append(("C03", "op %d %r: initial_call of s%d is not a bool: %r" % (opi, op, s, init)))
@@ -504,11 +524,11 @@ def oracle(case, obs):
                     if bool(init) != exp:
                         out.append(("C03", "op %d %r: initial_call of s%d is %r but %s" % (
                             opi, op, s, init, "the state was entered since its last call" if exp else "this is a consecutive call")))
-                if s in last and not pending.get(s, False) and init is not True and s != default:
+                if not offc and s in last and not pending.get(s, False) and init is not True and s != default:
                     ptm, pstm, peng = last[s]
                     if isinstance(stm, int) and isinstance(pstm, int) and stm < pstm:
                         out.append(("C03", "op %d %r: state_tm of s%d decreased over consecutive calls (%d -> %d)" % (opi, op, s, pstm, stm)))
-                if fresh is not None and s != default:
+                if not offc and fresh is not None and s != default:
                     if s != fresh[1]:
                         out.append(("C04", "op %d %r: after engage() on a stopped machine s%d ran first, expected s%d" % (opi, op, s, fresh[1])))
                     else:
@@ -521,22 +541,22 @@ def oracle(case, obs):
                 last[s] = (tm, stm, eng)
         if is_iter:
             user_done = any(a[0] == "done" for c in calls if c[6] < len(case["scripts"]) for a in case["scripts"][c[6]])
-            if requested and had_state and not auto and not user_done:
+            if not offc and requested and had_state and not auto and not user_done:
                 if len(calls) != 1 + nnow:
                     out.append(("C01", "op %d %r: requested iteration ran %d state functions with %d next_state_now()" % (opi, op, len(calls), nnow)))
-            if not requested and all(c[1] == default for c in calls) and is_exec:
-                msg = "op %d %r: no engage(), no must_finish state ran, but the machine is still executing" % (opi, op)
+            if not offc and all(c[1] == default for c in calls) and is_exec:
+                msg = "op %d %r: no regular or must_finish state ran in this iteration, but the machine is still executing" % (opi, op)
                 out.append(("C01", msg))
                 out.append(("C04", msg + " (it did not stop: is_executing should be False, done() invoked)"))
-            if is_exec and cur is None:
+            if not offc and is_exec and cur is None:
                 out.append(("C04", "op %d %r: is_executing is True but current_state is ''" % (opi, op)))
             requested = False
-        if not is_exec and cur is not None and kind in ("execute", "aiter"):
+        if not offc and not is_exec and cur is not None and kind in ("execute", "aiter"):
             out.append(("C04", "op %d %r: is_executing is False but current_state is s%d" % (opi, op, cur)))
         if prev_exec and not is_exec and ndone == 0:
             out.append(("C04", "op %d %r: the machine stopped without done() being invoked" % (opi, op)))
         if kind in ("done", "ondisable", "adisable"):
-            if is_exec or cur is not None:
+            if (is_exec or cur is not None) and not offc:
                 out.append(("C04", "op %d %r: after done()/on_disable() is_executing=%s current_state=%r" % (opi, op, is_exec, cur)))
             has_state = False
             fresh = None
@@ -544,14 +564,15 @@ def oracle(case, obs):
                 latch = False
         if kind == "aiter" and latch and not is_exec:
             latch = False
-        if lifecycle and kind == "aiter" and seen_done and is_exec:
+        if not offc and lifecycle and kind == "aiter" and seen_done and is_exec:
             out.append(("C13", "op %d %r: done() was invoked but the machine is executing after on_iteration" % (opi, op)))
         if not is_exec and not requested:
             stopped_since = True
         if not is_exec:
             last.clear() if False else None
         prev_exec = is_exec
-    out += oracle_chain(case, obs)
+    if not offc:
+        out += oracle_chain(case, obs)
     out += oracle_auto(case, obs)
     return out
 
@@ -566,12 +587,28 @@ def oracle_auto(case, obs):
     if any(op[0] not in ("aenable", "aiter", "adisable", "setdur") for op in case["hist"]):
         return out
     latch = False
+    fresh = False        # on_disable() ... on_enable(): the next on_iteration must start at the first state, tm = 0
+    disabled = False
     for opi, (op, (evs, is_exec, cur)) in enumerate(zip(case["hist"], obs)):
         if any(e[0] == "err" for e in evs):
             break
         kind = op[0]
         if kind == "aenable":
             latch = True
+            fresh = disabled
+            disabled = False
+        elif kind == "aiter" and latch and fresh:
+            calls = [e for e in evs if e[0] == "call" and e[1] != case["default"]]
+            if calls:
+                c = calls[0]
+                if c[1] != case["first"] or c[4] is False or (isinstance(c[2], int) and c[2] != 0):
+                    out.append(("C13", "op %d %r: first on_iteration after on_disable(); on_enable() called s%d with tm=%r initial_call=%r, "
+                                       "expected the first state s%d with tm 0 and initial_call True" % (opi, op, c[1], c[2], c[4], case["first"])))
+            fresh = False
+        if kind == "adisable":
+            disabled = True
+        if kind == "aenable":
+            pass
         elif kind == "adisable":
             latch = False
             if is_exec:
